@@ -164,6 +164,23 @@ func (m *Model) expectObject(s S, v map[string]any, p Pos) any {
 			continue
 		}
 		if pm != nil {
+			if _, own := pm["default"]; !own {
+				// a property that is a reference to a schema with a default: the inline copy of the target would apply it
+				if ref, isRef := pm["$ref"].(string); isRef {
+					if t, _, err := m.Resolve(ref, pa.file); err == nil {
+						if tm, ok := t.(map[string]any); ok {
+							if d, ok := tm["default"]; ok {
+								if m.dev("DEFAULT_BEHIND_REF_IGNORED") {
+									m.fire("DEFAULT_BEHIND_REF_IGNORED")
+								} else {
+									out[k] = jsonv.Clone(d)
+								}
+								continue
+							}
+						}
+					}
+				}
+			}
 			if d, ok := pm["default"]; ok {
 				if m.dev("INLINE_STRUCT_NO_DEFAULTS") && noMethodsStruct(p) {
 					// as built: an inline struct without unmarshal method (map value, item of a named array) applies no defaults
